@@ -84,7 +84,7 @@ impl Default for Profile {
             p_yield: 5,
             p_advance: 2,
             p_recv_all: 50,
-            timeouts: vec![0, 5, 20, 100],
+            timeouts: vec![0, 5, 20, 100, 0, 5, 20, 100, 0, 5, 20, 100, u32::MAX],
             faults: true,
             monitors: false,
             p_monitors: 0,
